@@ -12,6 +12,10 @@ func (H) Generate(prop string, rng *rand.Rand, tier string) any {
 	switch prop {
 	case "C02":
 		return genC02(rng, tier)
+	case "C14":
+		return genC14(rng, tier)
+	case "C03":
+		return genC03(rng, tier)
 	}
 	panic("dbsim: unknown property " + prop)
 }
@@ -21,6 +25,12 @@ func (H) Decode(prop string, raw json.RawMessage) (any, error) {
 	case "C02":
 		p := &C02Plan{}
 		return p, json.Unmarshal(raw, p)
+	case "C14":
+		p := &C14Plan{}
+		return p, json.Unmarshal(raw, p)
+	case "C03":
+		p := &C03Plan{}
+		return p, json.Unmarshal(raw, p)
 	}
 	return nil, fmt.Errorf("dbsim: unknown property %s", prop)
 }
@@ -29,6 +39,10 @@ func (H) Execute(prop string, plan any, rc *simkit.RunCtx) {
 	switch prop {
 	case "C02":
 		execC02(plan.(*C02Plan), rc)
+	case "C14":
+		execC14(plan.(*C14Plan), rc)
+	case "C03":
+		execC03(plan.(*C03Plan), rc)
 	}
 }
 
@@ -36,6 +50,10 @@ func (H) Check(prop string, plan any, rc *simkit.RunCtx) {
 	switch prop {
 	case "C02":
 		checkC02(plan.(*C02Plan), rc)
+	case "C14":
+		checkC14(plan.(*C14Plan), rc)
+	case "C03":
+		checkC03(plan.(*C03Plan), rc)
 	}
 }
 
@@ -43,6 +61,10 @@ func (H) Shrink(prop string, plan any) []any {
 	switch prop {
 	case "C02":
 		return shrinkC02(plan.(*C02Plan))
+	case "C14":
+		return shrinkC14(plan.(*C14Plan))
+	case "C03":
+		return shrinkC03(plan.(*C03Plan))
 	}
 	return nil
 }
